@@ -54,3 +54,5 @@ pub fn available_range() -> Range<Address> {
 /// Verification hook: names the crate-private chunk-state mmapper for `util::verif::c30`.
 #[cfg(feature = "verif")]
 pub type VerifChunkStateMmapper = self::mmapper::csm::ChunkStateMmapper;
+#[cfg(feature = "verif")]
+pub use self::map32::Map32 as VerifMap32;
